@@ -179,10 +179,8 @@ func raises(op compiler.Opcode, r value.Value) bool {
 }
 
 // covered: the opcodes whose execution this contract describes. The others
-// (Spawn, Call_Val, Load_Singleton, HostCall, GetGlobImm, SetGlobImm, Cast,
-// Index, Member, Import, IntoIter, IteratorAdvance) call into the host, into
-// builtin callbacks or into the member/cast machinery of the value library
-// and are outside this contract.
+// (Spawn, Call_Val, Load_Singleton, HostCall, Import, IteratorAdvance) call
+// into the host or into builtin callbacks and are outside this contract.
 func covered(op compiler.Opcode) bool {
 	switch op {
 	case compiler.Opcode_Nop, compiler.Opcode_AddMempointer, compiler.Opcode_Copy_Push, compiler.Opcode_Drop,
@@ -190,7 +188,9 @@ func covered(op compiler.Opcode) bool {
 		compiler.Opcode_SetVarImm, compiler.Opcode_Assign, compiler.Opcode_Neg, compiler.Opcode_Some, compiler.Opcode_Not,
 		compiler.Opcode_Pow, compiler.Opcode_SetTryLabel, compiler.Opcode_PopTryLabel, compiler.Opcode_Member_Unwrap,
 		compiler.Opcode_Member_Anyobj, compiler.Opcode_Into_Range, compiler.Opcode_Call_Imm, compiler.Opcode_Return,
-		compiler.Opcode_Clone, compiler.Opcode_Cloning_Push, compiler.Opcode_Eq, compiler.Opcode_Eq_PopOnce, compiler.Opcode_Throw:
+		compiler.Opcode_Clone, compiler.Opcode_Cloning_Push, compiler.Opcode_Eq, compiler.Opcode_Eq_PopOnce, compiler.Opcode_Throw,
+		compiler.Opcode_Index, compiler.Opcode_Cast, compiler.Opcode_Member, compiler.Opcode_IntoIter,
+		compiler.Opcode_GetGlobImm, compiler.Opcode_SetGlobImm:
 		return true
 	}
 	return isBinary(op)
@@ -238,8 +238,21 @@ func instrPre(c Core, i compiler.Instruction) bool {
 		return c.okTop(1) && c.peek(0).Kind() == value.AnyObjectValueKind
 	case compiler.Opcode_Into_Range:
 		return c.okTop(2) && c.peek(0).Kind() == value.IntValueKind && c.peek(1).Kind() == value.IntValueKind
-	case compiler.Opcode_Clone, compiler.Opcode_Throw:
+	case compiler.Opcode_Clone, compiler.Opcode_Throw, compiler.Opcode_IntoIter:
 		return c.okTop(1)
+	case compiler.Opcode_GetGlobImm:
+		// the global exists (every global is initialised by its module's init routine before use)
+		g, ok := c.parent.globals.Data[i.(compiler.OneStringInstruction).Value]
+		return ok && g != nil
+	case compiler.Opcode_SetGlobImm:
+		return c.okTop(1) && c.parent.globals.Data != nil
+	case compiler.Opcode_Index:
+		return c.okTop(2) && value.VIndexable(c.peek(1), c.peek(0))
+	case compiler.Opcode_Cast:
+		return c.okTop(1) && ast.VTypeWF(i.(compiler.CastInstruction).Type) && value.VShallowWF(c.peek(0))
+	case compiler.Opcode_Member:
+		// the member exists: a builtin member of the value's type (objects: any field the analyzer resolved)
+		return c.okTop(1) && ast.VMemberOf(value.VTypeKindOf(c.peek(0)), i.(compiler.OneStringInstruction).Value) && c.peek(0).Kind() != value.ObjectValueKind
 	case compiler.Opcode_Cloning_Push:
 		return true
 	case compiler.Opcode_Eq, compiler.Opcode_Eq_PopOnce:
@@ -319,10 +332,10 @@ func negInt(a int64) int64 { return -a }
 // completes without raising an interrupt.
 func stackEffect(op compiler.Opcode) int {
 	switch op {
-	case compiler.Opcode_Copy_Push, compiler.Opcode_Duplicate, compiler.Opcode_GetVarImm:
+	case compiler.Opcode_Copy_Push, compiler.Opcode_Duplicate, compiler.Opcode_GetVarImm, compiler.Opcode_GetGlobImm:
 		return 1
 	case compiler.Opcode_Drop, compiler.Opcode_JumpIfFalse, compiler.Opcode_SetVarImm, compiler.Opcode_Pow, compiler.Opcode_Into_Range,
-		compiler.Opcode_Eq:
+		compiler.Opcode_Eq, compiler.Opcode_Index, compiler.Opcode_SetGlobImm:
 		return -1
 	case compiler.Opcode_Cloning_Push:
 		return 1
@@ -375,22 +388,26 @@ func keepsFrame(op compiler.Opcode) bool {
     ghostset sincePoll = ghost(sincePoll) + 1
     split instruction.Opcode() in 0..51
     assumes covered(instruction.Opcode())
-    assumepre Clone, IsEqual, Display
+    assumepre Clone, IsEqual, Display, Fields
     requires instrPre(*self, instruction)
-    modifies self.Stack, self.CallStack, self.MemoryPointer, self.ExceptionCatchLabels, self.tryStates, elems(self.tryStates), elems(self.Stack), elems(self.Memory), elems(self.CallStack), elems(self.ExceptionCatchLabels), heap(value.Value)
+    modifies self.Stack, self.CallStack, self.MemoryPointer, self.ExceptionCatchLabels, self.tryStates, elems(self.tryStates), elems(self.Stack), elems(self.Memory), elems(self.CallStack), elems(self.ExceptionCatchLabels), heap(value.Value), mapcontent(self.parent.globals.Data)
     ensures @interrupt-wellformed result != nil ==> *result != nil
     ensures @frames-on-interrupt result != nil ==> len(self.CallStack) == old(len(self.CallStack))
     requires disjoint(self.CallStack, self.ExceptionCatchLabels) && disjoint(self.Stack, self.Memory)
     requires self.Limits.MaxMemorySize < 1<<62
     requires @try-wf tryLens(*self)
     ensures @try-wf tryLens(*self)
+    requires @globals-unlocked rlocks(&self.parent.globals.Mutex) == 0 && !wlocked(&self.parent.globals.Mutex)
+    ensures @globals-unlocked rlocks(&self.parent.globals.Mutex) == 0 && !wlocked(&self.parent.globals.Mutex)
+    ensures @get-global instruction.Opcode() == compiler.Opcode_GetGlobImm ==> self.peek(0) == old(self.parent.globals.Data[instruction.(compiler.OneStringInstruction).Value])
+    ensures @set-global instruction.Opcode() == compiler.Opcode_SetGlobImm ==> self.parent.globals.Data[instruction.(compiler.OneStringInstruction).Value] == old(self.peek(0))
     ensures @binary result == nil && isBinary(instruction.Opcode()) ==> binResult(instruction.Opcode(), old(self.peek(1)), old(self.peek(0)), self.peek(0))
     ensures @raises isBinary(instruction.Opcode()) ==> (result != nil <==> raises(instruction.Opcode(), old(self.peek(0))))
     ensures @raises-kind isBinary(instruction.Opcode()) && result != nil ==> fatalOf(result, value.Vm_ValueErrorKind)
     ensures @effect covered(instruction.Opcode()) && result == nil ==> self.depth() == old(self.depth())+stackEffect(instruction.Opcode())
     ensures @advance covered(instruction.Opcode()) && result == nil && keepsFrame(instruction.Opcode()) ==> len(self.CallStack) == old(len(self.CallStack)) && self.frameIP() == old(self.frameIP())+1
     ensures @unary result == nil && (instruction.Opcode() == compiler.Opcode_Neg || instruction.Opcode() == compiler.Opcode_Not) ==> unaryResult(instruction.Opcode(), old(self.peek(0)), self.peek(0))
-    ensures @no-error-otherwise covered(instruction.Opcode()) && !isBinary(instruction.Opcode()) && instruction.Opcode() != compiler.Opcode_AddMempointer && instruction.Opcode() != compiler.Opcode_Member_Unwrap && instruction.Opcode() != compiler.Opcode_Eq && instruction.Opcode() != compiler.Opcode_Eq_PopOnce && instruction.Opcode() != compiler.Opcode_Throw ==> result == nil
+    ensures @no-error-otherwise covered(instruction.Opcode()) && !isBinary(instruction.Opcode()) && instruction.Opcode() != compiler.Opcode_AddMempointer && instruction.Opcode() != compiler.Opcode_Member_Unwrap && instruction.Opcode() != compiler.Opcode_Eq && instruction.Opcode() != compiler.Opcode_Eq_PopOnce && instruction.Opcode() != compiler.Opcode_Throw && instruction.Opcode() != compiler.Opcode_Index && instruction.Opcode() != compiler.Opcode_Cast ==> result == nil
     ensures @throw instruction.Opcode() == compiler.Opcode_Throw ==> result != nil && len(self.CallStack) == old(len(self.CallStack)) && self.depth() == old(self.depth())-1
     ensures @frames-kept covered(instruction.Opcode()) && instruction.Opcode() != compiler.Opcode_Call_Imm && instruction.Opcode() != compiler.Opcode_Return ==> len(self.CallStack) == old(len(self.CallStack))
     ensures @jump instruction.Opcode() == compiler.Opcode_Jump ==> self.frameIP() == uint(instruction.(compiler.OneIntInstruction).Value) && len(self.CallStack) == old(len(self.CallStack))
@@ -411,6 +428,8 @@ func keepsFrame(op compiler.Opcode) bool {
     ensures @unwrap-none instruction.Opcode() == compiler.Opcode_Member_Unwrap ==> (result != nil <==> old(self.peek(0)).(value.ValueOption).Inner == nil)
     ensures @some instruction.Opcode() == compiler.Opcode_Some ==> self.peek(0).Kind() == value.OptionValueKind && self.peek(0).(value.ValueOption).Inner != nil && *self.peek(0).(value.ValueOption).Inner == old(self.peek(0))
     ensures @some-unshared instruction.Opcode() == compiler.Opcode_Some ==> fresh(self.peek(0).(value.ValueOption).Inner) && fresh(self.Stack[len(self.Stack)-1])
+    ensures @cast-conforms result == nil && instruction.Opcode() == compiler.Opcode_Cast ==> value.VConforms(self.peek(0), instruction.(compiler.CastInstruction).Type)
+    ensures @iterator instruction.Opcode() == compiler.Opcode_IntoIter ==> self.peek(0).Kind() == value.IteratorValueKind
     ensures @clone-unshared result == nil && instruction.Opcode() == compiler.Opcode_Clone ==> len(self.Stack) > 0 && fresh(self.Stack[len(self.Stack)-1]) && self.peek(0).Kind() == old(self.peek(0).Kind())
 @*/
 
